@@ -998,6 +998,8 @@ class Engine:
         return self.getattr(o, e.attr, e)
 
     def getattr(self, o, name, node=None):
+        if isinstance(o, VNone) and not name.startswith('__'):
+            self.throw('AttributeError', origin='attribute %s of None' % name)
         if isinstance(o, VNamespace):
             if name in o.attrs:
                 return o.attrs[name]
